@@ -1239,6 +1239,26 @@ fn parse_codec_cfg(d: &[u8], b: &Bx, kind: &str, pr: &mut Probs) -> CodecCfg {
                     return out;
                 }
                 asc = p[pos..pos + sl].to_vec();
+                // AudioSpecificConfig (ISO/IEC 14496-3, 1.6.2.1): the record must be long enough
+                // for the syntax its own audioObjectType selects. Plain types need 5+4+4 bits
+                // plus the 3 bits of GASpecificConfig (2 bytes); the hierarchical SBR / PS types
+                // (5, 29) carry an extension frequency index and a second object type first.
+                let bits = asc.len() * 8;
+                if bits < 13 {
+                    bad(pr, "AudioSpecificConfig-short", format!("{} bytes", asc.len()));
+                } else {
+                    let aot = asc[0] >> 3;
+                    let sfi = ((asc[0] & 7) << 1) | (asc[1] >> 7);
+                    let need = match (aot, sfi) {
+                        (31, _) => 13 + 6 + 3,
+                        (_, 15) => 13 + 24 + 3,
+                        (5, _) | (29, _) => 13 + 4 + 5 + 3,
+                        _ => 13 + 3,
+                    };
+                    if bits < need {
+                        bad(pr, "AudioSpecificConfig-truncated", format!("audioObjectType {aot} needs at least {need} bits, the record has {bits}"));
+                    }
+                }
                 pos = dend;
             }
             // SLConfigDescriptor
